@@ -501,7 +501,7 @@ func (c *Ctx) NoUseAfter(fn *ssa.Function, v ssa.Value, writeSpec, why string) {
 			}
 		}
 		check(w.Block(), wi+1)
-		for b := range ReachFrom(w.Block().Succs, back) {
+		for b := range ReachFrom(succsNotCut(w.Block(), back), back) {
 			if b == w.Block() {
 				continue
 			}
